@@ -5,6 +5,7 @@ func init() {
 		ID:    "C08",
 		Title: "Lexing and parsing terminate on every input and end in a program or an error",
 		Rules: []string{
+			"R-ILLEGAL: the ILLEGAL token for an unknown character is built without consuming input (the parser's only ILLEGAL check is at statement starts; names/keys are taken from the current token unchecked)",
 			"R-NILERR: every `return nil` of a parse function is preceded on all paths by a recorded error (newError, failure edge of an expect function, nil result of a parse function with the same guarantee — greatest fixpoint); parseStr/parseProgram hand out a program only when the parser recorded no error",
 			"R-NILPARSE: in the parser no result of a parse function and no AST-interface parameter is dereferenced without a dominating non-nil test (they are nil after a recorded error)",
 			"R-EOFTOKEN: abstractly executing NextToken and its callees with l.char == 0 up to the first consuming call, only EOF or ILLEGAL tokens can be built",
@@ -21,6 +22,7 @@ func init() {
 			m.RunTokTable(s, "R-TOKTABLE")
 			m.RunNilParse(s, "R-NILPARSE")
 			m.RunNilErr(s, "R-NILERR")
+			m.RunIllegalSticky(s, "R-ILLEGAL")
 			m.RunEOFToken(s, "R-EOFTOKEN")
 			// the lexer and parser themselves cannot panic: assertions, bounds, nil results
 			r := m.Roots()
